@@ -41,6 +41,7 @@ def run(check: Check, repo: Repo, tier: str) -> None:
     T5.field_lookup_by_name(check, repo)
     T5.stream_predicate(check, repo)
     T5.per_event_pure(check, repo)
+    X.resolver_args_fresh(check, repo)
     check.floors = {k: v for k, v in check.floors.items() if k != "TWIN-HANDLERS"}
     check.floor("TWIN-HANDLERS", 1, "twins in execute.py")
     from rules import total_rules as T1
